@@ -488,9 +488,7 @@ def resolve(e, env, depth=0):
             alts.append(resolve(e["then"], cenv, depth + 1))
         if e["else"] is not None and not diverges(e["else"]):
             alts.append(resolve(e["else"], env, depth + 1))
-        if len(alts) == 1:
-            return alts[0]
-        return ("alt", tuple(alts), ("if", resolve(c["expr"] if c["k"] == "Let" else c, env, depth + 1)))
+        return mk_alt(alts, ("if", resolve(c["expr"] if c["k"] == "Let" else c, env, depth + 1)))
     if k == "Match":
         alts = []
         for arm in e["arms"]:
@@ -498,9 +496,7 @@ def resolve(e, env, depth=0):
                 continue
             aenv = bind_pattern(env, arm["pat"], e["scrut"], env, "bind", arm)
             alts.append(resolve(arm["body"], aenv, depth + 1))
-        if len(alts) == 1:
-            return alts[0]
-        return ("alt", tuple(alts), ("match", resolve(e["scrut"], env, depth + 1)))
+        return mk_alt(alts, ("match", resolve(e["scrut"], env, depth + 1)))
     if k == "Closure":
         return ("closure", id(e))
     return ("expr", k)
@@ -529,8 +525,33 @@ def diverges(e):
     return False
 
 
+def mk_alt(alts, why):
+    flat = []
+    for a in alts:
+        if a[0] == "alt":
+            flat.extend(a[1])
+        else:
+            flat.append(a)
+    if len(flat) == 1:
+        return flat[0]
+    return ("alt", tuple(flat), why)
+
+
+FRESH = {"default", "new", "with_capacity"}
+
+
+def is_fresh_container(p):
+    if p[0] == "call" and p[1].split("::")[-1] in FRESH and all(a[0] in ("lit",) for a in p[2]):
+        return True
+    if p[0] == "macro" and p[1] == "vec" and not p[2]:
+        return True
+    return False
+
+
 def apply_proj(p, proj):
-    for step in proj:
+    for i, step in enumerate(proj):
+        if p[0] == "alt":
+            return mk_alt([apply_proj(a, proj[i:]) for a in p[1]], p[2])
         if step[0] == "tuple" and p[0] == "tuple" and step[1] < len(p[1]):
             p = p[1][step[1]]
         elif step[0] == "variant":
@@ -550,6 +571,9 @@ def resolve_def(df, depth=0):
         if df.init is None:
             return ("uninit", df.name)
         base = resolve(df.init, df.env, depth + 1)
+        if df.kind == "let" and not df.proj and is_fresh_container(base):
+            # a local that starts empty and is filled by mutation: keep its identity
+            return ("local", df.name, df.node["l"] if df.node else 0, base)
         return apply_proj(base, df.proj)
     if df.kind == "elem":
         base = resolve(df.init, df.env, depth + 1)
@@ -607,6 +631,8 @@ def show(p):
         return f"cparam#{p[1]}({p[2]})"
     if t == "alt":
         return "{" + " | ".join(show(a) for a in p[1]) + "}"
+    if t == "local":
+        return f"{p[1]}@L{p[2]}"
     return "<" + t + ">"
 
 
@@ -728,3 +754,38 @@ def top_stmt_index(fn, node, pm):
 def before(a, b):
     """source order"""
     return (a["l"], a["c"]) < (b["l"], b["c"])
+
+
+def preceding_guards(node, pm):
+    """Early-exit guards that dominate `node` syntactically: for every enclosing block, each earlier
+    sibling statement of the form `if C { ..diverges.. }` (no else) or `let P = E else { diverges }`.
+    Returns list of ('if', cond_node, stmt) / ('letelse', local_node, stmt), nearest first."""
+    out = []
+    cur = node
+    while id(cur) in pm:
+        par, key = pm[id(cur)]
+        if par["k"] == "Block" and key == "stmts":
+            stmts = par["stmts"]
+            idx = None
+            for i, s in enumerate(stmts):
+                if s is cur:
+                    idx = i
+                    break
+            if idx is not None:
+                for s in reversed(stmts[:idx]):
+                    if s["k"] == "ExprStmt" and s["expr"]["k"] == "If" and s["expr"]["else"] is None and diverges(s["expr"]["then"]):
+                        out.append(("if", s["expr"]["cond"], s))
+                    elif s["k"] == "Local" and s.get("else") is not None and diverges(s["else"]):
+                        out.append(("letelse", s, s))
+        cur = par
+    return out
+
+
+def stmt_of(node, pm):
+    """nearest enclosing statement node (Local / ExprStmt)"""
+    cur = node
+    while id(cur) in pm:
+        if cur["k"] in ("Local", "ExprStmt"):
+            return cur
+        cur = pm[id(cur)][0]
+    return cur if cur["k"] in ("Local", "ExprStmt") else None
